@@ -14,6 +14,7 @@ from pandera.api.polars.utils import get_lazyframe_column_names
 from pandera.backends.base import ColumnInfo, CoreCheckResult
 from pandera.backends.polars.base import PolarsSchemaBackend
 from pandera.config import ValidationDepth, ValidationScope, get_config_context
+from pandera.constants import CHECK_OUTPUT_KEY
 from pandera.errors import (
     ParserError,
     SchemaDefinitionError,
@@ -597,6 +598,7 @@ class DataFrameSchemaBackend(PolarsSchemaBackend):
         passed = True
         message = None
         failure_cases = None
+        check_output = None
 
         if not schema.unique:
             return CoreCheckResult(
@@ -622,7 +624,12 @@ class DataFrameSchemaBackend(PolarsSchemaBackend):
                 continue
             duplicates = check_obj.select(subset).collect().is_duplicated()
             if duplicates.any():
-                failure_cases = check_obj.filter(duplicates)
+                # materialize the failure cases so that they can be reported
+                # by lazy validation (SchemaErrors)
+                failure_cases = (
+                    check_obj.select(subset).filter(duplicates).collect()
+                )
+                check_output = duplicates.not_().alias(CHECK_OUTPUT_KEY).to_frame()
 
                 passed = False
                 message = f"columns '{*subset,}' not unique:\n{failure_cases}"
@@ -633,4 +640,5 @@ class DataFrameSchemaBackend(PolarsSchemaBackend):
             reason_code=SchemaErrorReason.DUPLICATES,
             message=message,
             failure_cases=failure_cases,
+            check_output=check_output,
         )
